@@ -250,7 +250,8 @@ def history(ctx, rng, lib_sets):
             if conn.client_connect_attrs != dict(attrs):
                 return dict(problem="connect attributes garbled", charset=cs0, sent=attrs, got=conn.client_connect_attrs), steps, []
         views = [(c.client, c.results)]
-        for _ in range(rng.randint(4, 10)):
+        stmts = []
+        for _ in range(rng.randint(4, 12)):
             r = rng.random()
             if r < 0.3:
                 sql, term, eff = gen_switch(rng, usable_client)
@@ -284,17 +285,35 @@ def history(ctx, rng, lib_sets):
                 if ("use", d) not in log[-1:]:
                     return dict(problem="COM_INIT_DB database garbled", charset=c.client, sent=d, got=log[-1:] and log[-1]), steps, views
             elif r < 0.62:
-                # prepared statement with a string parameter
-                text = sample(rng, c.client)
-                rep = c.command(bytes([cl.COM_STMT_PREPARE]) + c.enc("SELECT c FROM t WHERE x = ?"))
-                sid = rep[0][1][1:5]
-                TextSession.NEXT = None
-                p = pk.P(b"", pk.T_VAR_STRING, False, c.enc(text))
-                c.command(bytes([cl.COM_STMT_EXECUTE]) + sid + b"\x00" + struct.pack("<I", 1) + cl.lenenc(1) + pk.encode_params([p], True))
-                steps.append("KText")
-                got = log[-1][1] if log and log[-1][0] == "query" else None
-                if got is None or text not in got:
-                    return dict(problem="prepared-statement string parameter garbled", charset=c.client, sent=text, got=got), steps, views
+                # prepared statements live across switches: prepare now (text in the current character set) or execute one prepared
+                # EARLIER - its parameters, long data and attributes are text of the command that carries them
+                if not stmts or rng.random() < 0.4:
+                    lit = sample(rng, c.client, 3)
+                    rep = c.command(bytes([cl.COM_STMT_PREPARE]) + c.enc(f"SELECT c FROM t WHERE y = '{lit}' AND x = ?"))
+                    steps.append("KText")
+                    if rep[0][1][:1] == b"\xff":
+                        return dict(problem="prepare refused", charset=c.client, text=lit), steps, views
+                    stmts.append((rep[0][1][1:5], lit))
+                else:
+                    sid, lit = rng.choice(stmts)
+                    text = sample(rng, c.client)
+                    TextSession.NEXT = None
+                    an, av = sample(rng, c.client, 3), sample(rng, c.client, 4)
+                    if rng.random() < 0.3:
+                        c.command(bytes([cl.COM_STMT_SEND_LONG_DATA]) + sid + b"\x00\x00" + c.enc(text))
+                        p = pk.P(b"", pk.T_VAR_STRING, False, b"")
+                        p.long_data = True      # nothing inline: the value was supplied by COM_STMT_SEND_LONG_DATA
+                    else:
+                        p = pk.P(b"", pk.T_VAR_STRING, False, c.enc(text))
+                    a = pk.P(c.enc(an), pk.T_VAR_STRING, False, c.enc(av))
+                    c.command(bytes([cl.COM_STMT_EXECUTE]) + sid + b"\x08" + struct.pack("<I", 1) + cl.lenenc(2) + pk.encode_params([p, a], True))
+                    steps.append("KText")
+                    got = log[-1] if log and log[-1][0] == "query" else None
+                    if got is None or text not in got[1] or lit not in got[1]:
+                        return dict(problem="prepared-statement text / string parameter garbled (statement prepared earlier in the history)",
+                                    charset_now=c.client, sent=(lit, text), got=got and got[1]), steps, views
+                    if got[2] != {an: av}:
+                        return dict(problem="query attributes of COM_STMT_EXECUTE garbled", charset=c.client, sent={an: av}, got=got[2]), steps, views
             elif r < 0.8:
                 # application query: text in the SQL and in query attributes; result with names / cells in several character sets
                 text = sample(rng, c.client)
